@@ -105,7 +105,7 @@ def returned_local(f):
     return None
 
 
-def collect(prog, f, pmap=None, retobj=None, depth=0, seen=None):
+def collect(prog, f, pmap=None, retobj=None, depth=0, seen=None, maxdepth=4):
     """guards of f and (recursively) of its crate-local callees, rewritten into the root frame"""
     seen = seen or set()
     sy = Sym(f)
@@ -119,7 +119,7 @@ def collect(prog, f, pmap=None, retobj=None, depth=0, seen=None):
     for kind, e, truth, sp in guards_of(f, sy):
         e2 = e if ident else subst(e, pmap, retobj, rl)
         out.append((kind, e2, truth, sp, f))
-    if depth >= 4:
+    if depth >= maxdepth:
         return out
     for i, t in f.calls():
         c = callee_of(t)
@@ -143,7 +143,7 @@ def collect(prog, f, pmap=None, retobj=None, depth=0, seen=None):
             if not ident and pmap.get("G"):
                 gmap = {k: pmap["G"].get(v, v) for k, v in gmap.items()}
             gm["G"] = gmap
-        out += collect(prog, g, gm, callexpr, depth + 1, seen | {f.path})
+        out += collect(prog, g, gm, callexpr, depth + 1, seen | {f.path}, maxdepth)
     return out
 
 
@@ -171,7 +171,10 @@ IMPLIED = [
 
 def check_entry(ctx, prog, f):
     ctx.visit(f)
-    gs = collect(prog, f)
+    # constructors: the whole chain builds the object; checked forms of an operation: the contract is that of the `_internal`
+    # body they wrap (beliefs further down are conditional on that body's own tests)
+    shallow = "BlockHashPositionArrayImpl" in f.path
+    gs = collect(prog, f, maxdepth=1 if shallow else 4)
     live = {}
     for kind, e, truth, sp, g in gs:
         if kind == "live":
@@ -210,6 +213,9 @@ def entries(prog):
         if not f.exported or f.unsafe or "closure" in f.path:
             continue
         if re.search(r"(FuzzyHashData|FuzzyHashDualData)::<[^>]*>::(new_from_internals|init_from_internals)[a-z_]*$", f.path):
+            out.append(f)
+        # the checked forms of the position-array operations: their asserts are the contract of the `_internal` bodies
+        elif re.search(r"^<T as internals::compare::position_array::BlockHashPositionArrayImpl(Mut)?>::\w+$", f.path):
             out.append(f)
     return out
 
